@@ -3,7 +3,7 @@
    discharged with the cell codec's round trip (Cell/CellFacts.v).  No axioms. *)
 From Coq Require Import List NArith ZArith Bool Lia ZifyBool Arith FinFun.
 From RPFT Require Import Base.Sexp Base.PyStr Base.PyStrFacts Base.Result Base.ODict Gen.Tables
-  Cell.Cell Cell.CellFacts Row.Ty Row.Layout Row.RowParse Row.RowUnparse Row.TextFacts Row.RoundTrip.
+  Cell.Cell Cell.CellFacts Row.Ty Row.Layout Row.RowParse Row.RekeyFacts Row.RowUnparse Row.TextFacts Row.RoundTrip.
 Import ListNotations.
 Local Open Scope N_scope.
 
@@ -1161,12 +1161,12 @@ Qed.
 
 Lemma rekey_none_gen cells : forall acc,
   NoDup (map fst (acc ++ cells)) ->
-  foldM (fun acc kv => do k <- ctx_h2f None cells (fst kv); Ok (oset str_eqb acc k (snd kv))) cells acc
+  foldM (fun acc kv => do k <- ctx_h2f None cells (fst kv); Ok (rekey_put acc k (snd kv))) cells acc
   = Ok (acc ++ cells).
 Proof.
   generalize cells at 2. intros all. induction cells as [|[k v] r IH]; intros acc Hnd.
   - rewrite app_nil_r. reflexivity.
-  - cbn [foldM ctx_h2f bind fst snd]. rewrite oset_absent_str.
+  - cbn [foldM ctx_h2f bind fst snd]. rewrite rekey_put_new.
     + rewrite IH; rewrite <- app_assoc; [reflexivity|exact Hnd].
     + rewrite map_app in Hnd. apply NoDup_remove_2 in Hnd. intros Hin. apply Hnd. apply in_or_app. left. exact Hin.
 Qed.
